@@ -145,6 +145,9 @@ def domain(name, lean, g, n):
         v = g.integers(0, 375, n).astype(float)
     elif name == 'time_':
         v = numpy.round(u(0., 3.e8, n) * 2**20) / 2**20
+        neg = u(0, 1, n) < 0.3                       # epochs before the mission reference date: negative MET
+        v = numpy.where(neg, -numpy.round(u(0., 3.e7, n) * 2**20) / 2**20, v)
+        v = numpy.where(u(0, 1, n) < 0.1, numpy.round(v), v)   # whole seconds of either sign
     elif name in ('norm', 'integral'):
         v = u(0.1, 20., n)
     elif name == 'index':
